@@ -47,6 +47,12 @@ def cases(tier, seed):
         for pat in gen.all_patterns(L):
             yield {"k": "pat", "p": M.pat_str(pat)}
     rng = gen.sub_rng(seed, ID)
+    for z in (18, 19, 25):
+        for few in (1, 2):
+            for many in ((5, 9, 14) if tier == "quick" else (5, 7, 9, 11, 14, 20, 30)):
+                pat = [1] * few + [-1] * many + [0] * z
+                rng.shuffle(pat)
+                yield {"k": "seq", "s": gen.spell(rng, pat), "o": rng.randrange(1 << 30)}
     for i in range(NRANDOM[tier]):
         yield {"k": "seq", "s": gen.rand_seq(rng, hi=HI[tier] if i % 4 == 0 else 50), "o": rng.randrange(1 << 30)}
 
